@@ -1,5 +1,6 @@
 import Babble.Proofs.Vote
 import Babble.Proofs.HGBlocks
+import Babble.Proofs.DagVote
 /-! # C01 — agreement
     What is proved here (unbounded in the number of validators, witnesses, rounds, and for every
     order in which deciders are met):
@@ -12,9 +13,20 @@ import Babble.Proofs.HGBlocks
     * delivered blocks form an append-only sequence with consecutive indexes on every node (from
       C02), so "prefix-consistent at every instant" follows from agreement of the final sequences.
 
-    NOT proved (visible goal, decided by correspondence + oracle only): `agreement_static`, i.e. the
-    instantiation of the abstract vote system from the operational state for two nodes holding
-    different views of one fork-free history, and agreement under validator-set changes
+    * `agreement_static_fame`, `latch_sound`, `famous_sets_agree` (static validator set): for the
+      declarative model `Babble.Dag` — events as hash-linked trees, round / witness / strongly-see /
+      votes / decisions defined by `Dag.info` exactly as `hashgraph.go` computes them for a node that
+      runs the passes after every insertion, and compared with the Go code on every static view of
+      every generated history — the vote system of any fork-free history is an instance of the
+      abstract vote core, so: any two deciders of a witness' fame agree, whichever nodes hold them;
+      a witness a node did not hold when it declared the round decided is never famous for anybody
+      (the `decided` latch of `RoundInfo` is sound); and two nodes that both declared round r decided
+      have the same set of famous witnesses of r.  Round-received of an event, the frame of a round
+      and the block are functions of those sets (C03, C04).
+
+    NOT proved (decided by correspondence + oracle only): the refinement from the operational model
+    `Babble.HG` (coordinates, stored tables) to `Babble.Dag` — both are compared with the Go code
+    and with each other on every generated static view —, and agreement under validator-set changes
     (`agreement_dynamic`).  See DESIGN.md §3 C01. -/
 namespace Babble.Props.C01
 open Babble Babble.Vote
@@ -48,6 +60,45 @@ theorem second_round_is_normal : normalLvl 1 = true := normal_one
 theorem own_history_prefix (s : HG.St) (es es' : List HG.Ev) :
     ∃ new, (HG.runAll s (es ++ es')).blocks = (HG.runAll s es).blocks ++ new := by
   rw [HG.runAll_append]; exact HG.runAll_extends _ _
+
+/-! ### agreement on the declarative model (static validator set) -/
+
+open Babble.Dag in
+/-- **agreement_static (fame)**: in a fork-free history `U` (closed under ancestors, ids = hashes
+    injective), any two witnesses that decide the fame of witness `x` decide the same value -/
+theorem agreement_static_fame {ps : List Nat} {U : Dag.E → Prop} (H : Dag.Hist ps U) {x y y' : Dag.E}
+    (hx : U x) (hy : U y) (hy' : U y') {b b' : Bool}
+    (h : Dag.decision ps y x = some b) (h' : Dag.decision ps y' x = some b') : b = b' :=
+  Dag.dag_fame_agreement H hx hy hy' h h'
+
+/-- **latch_sound**: a node whose view `V` has declared round `r` decided never needs to look at
+    round `r` again — a witness of `r` it does not hold is not famous for anybody, ever -/
+theorem latch_sound {ps : List Nat} {U V : Dag.E → Prop} (H : Dag.Hist ps U) (hV : Dag.View V U) {r : Int}
+    (hdec : Dag.RoundDecided ps V r) {x' : Dag.E} (hx' : U x') (hr' : Dag.round ps x' = r) (hnot : ¬ V x') :
+    ∀ y, U y → Dag.decision ps y x' ≠ some true :=
+  Dag.dag_late_witness_not_famous H hV hdec hx' hr' hnot
+
+/-- **famous_sets_agree**: two nodes (views `A`, `B` of one fork-free history, neither need contain
+    the other) that both declared round `r` decided have the same famous witnesses of `r` -/
+theorem famous_sets_agree {ps : List Nat} {U A B : Dag.E → Prop} (H : Dag.Hist ps U)
+    (hA : Dag.View A U) (hB : Dag.View B U) {r : Int}
+    (dA : Dag.RoundDecided ps A r) (dB : Dag.RoundDecided ps B r) (x : Dag.E) :
+    Dag.FamousIn ps A r x ↔ Dag.FamousIn ps B r x :=
+  Dag.famous_agree H hA hB dA dB x
+
+/-- non-vacuity: a one-event history is a history (larger ones are evaluated, not proved: every
+    static view of every generated DAG goes through `Dag.build`, see the correspondence run) -/
+example : Dag.Hist [0] (fun e => e = Dag.E.mk 1 0 .nil .nil false) where
+  idInj := by intro a b ha hb _; rw [ha, hb]
+  dc := by
+    intro e a he ha; subst he
+    rcases Dag.anc_mk.mp ha with h | h | h
+    · exact h
+    · exact absurd h (Dag.anc_nil_right a)
+    · exact absurd h (Dag.anc_nil_right a)
+  forkFree := by
+    intro a b ha hb _; subst ha; subst hb
+    left; simp [Dag.SelfAnc, Dag.selfL]
 
 /-- non-vacuity of the vote system: one validator, two witnesses (levels 0 and 1); the level-1
     witness strongly sees the level-0 one and decides what it voted -/
